@@ -86,8 +86,9 @@ fn esc(a: &str, rawtab: bool) -> String {
     }
     o
 }
-fn must_quote(a: &str, first: bool, no_out: bool) -> bool {
-    a.is_empty() || a.chars().any(is_ws) || a.contains('#') || (first && no_out && a.starts_with('='))
+fn must_quote(a: &str, first: bool, no_out: bool, rawtab: bool) -> bool {
+    let raw_ws_end = a.chars().last().map(|c| is_ws(c) && c != '\n' && c != '\r' && (c != '\t' || rawtab)).unwrap_or(false);
+    a.is_empty() || a.contains(' ') || a.contains('#') || (first && no_out && a.starts_with('=')) || raw_ws_end
 }
 
 /// one random instruction with random rendering choices; returns (record, rendered line)
@@ -121,12 +122,12 @@ pub fn rand_line(r: &mut Rng) -> (Value, String) {
     }
     for (i, a) in args.iter().enumerate() {
         line.push_str(&" ".repeat(sep[i]));
-        if q[i] || must_quote(a, i == 0, out.is_none()) {
+        if q[i] || must_quote(a, i == 0, out.is_none(), rawtab[i]) {
             line.push('"');
             line.push_str(&esc(a, rawtab[i]));
             line.push('"');
         } else {
-            line.push_str(&esc(a, false));
+            line.push_str(&esc(a, rawtab[i]));
         }
     }
     line.push_str(&" ".repeat(trail));
